@@ -244,3 +244,8 @@ pub assume_specification<T: PartialEq, A: std::alloc::Allocator>[ Vec::<T, A>::d
     ensures
         final(v)@.len() <= old(v)@.len(),
         forall|i: int| 0 <= i < final(v)@.len() ==> old(v)@.contains(#[trigger] final(v)@[i]);
+
+// <[T]>::contains (also reached through Vec's deref): whether some element equals x.  Equality of the element type is not
+// modelled generically, so only the direction that needs no model is stated: an empty slice contains nothing.
+pub assume_specification<T: PartialEq>[ <[T]>::contains ](s: &[T], x: &T) -> (r: bool)
+    ensures s@.len() == 0 ==> !r;
